@@ -1,4 +1,5 @@
 import Martian.Lemmas.Shutdown
+import Martian.Generated.Shutdown
 /-!
 C07 — Shutdown completes in-flight exchanges, refuses new ones and closes everything.
 
@@ -18,6 +19,22 @@ that no accepted connection is still uncounted when `Close` returns (`…_partia
 -/
 namespace Martian.Props.C07
 open Martian.Shutdown
+
+/-! ### tie: the skeleton of proxy.go the model transcribes (regenerated from /repo on every check) -/
+
+/-- `conns.Add` is called in `handleLoop` only (inside the spawned goroutine — F07); `Close` signals
+first and then waits under `connsMu`; `handleLoop` counts itself, defers `conns.Done` then
+`conn.Close` (so the connection is closed BEFORE the handler is un-counted) and checks `Closing()`
+before its serving loop; `readRequest` selects on the closing signal; `Serve` checks `Closing()` at
+the loop top and evaluates `conn.RemoteAddr()` between `Accept` and the `go` statement. -/
+theorem facts_shutdown_skeleton :
+    Generated.Shutdown.addSites = ["handleLoop"] ∧
+    Generated.Shutdown.closeCalls = ["close", "p.connsMu.Lock", "p.conns.Wait", "p.connsMu.Unlock"] ∧
+    Generated.Shutdown.handleLoopPrologue = ["p.connsMu.Lock", "p.conns.Add", "p.connsMu.Unlock", "p.Closing"] ∧
+    Generated.Shutdown.handleLoopDefers = ["p.conns.Done", "conn.Close"] ∧
+    Generated.Shutdown.readRequestSelectArms = ["<-errc", "<-reqc", "<-p.closing"] ∧
+    Generated.Shutdown.serveSkeleton = ["p.Closing", "l.Accept", "conn.RemoteAddr", "go p.handleLoop"] := by
+  decide
 
 /-! ### every started exchange is completed before its connection is closed -/
 
